@@ -1,1 +1,698 @@
 // Kani harnesses compiled inside rs-matter/src/im/expand.rs (module `verif_kani`).
+
+// Property C06 (expansion cursor): step contract of `PathExpander::next_for_path` on a bounded node
+// (<= 2 endpoints x 2 clusters x 2 leaves, fixed ids; paths, cursor and verdicts symbolic), for every path, every cursor state and
+// every outcome of the per-leaf gates. The gates `Cluster::{check_attr_access, check_cmd_access}`
+// (contracts: C06.attr.*, C06.cmd.* in acl.rs) and `Accessor::is_endpoint_accessible` (C05.group.* in
+// fabric.rs) are replaced by their contracts: verdicts are a function of the element, chosen by
+// the harness; the stand-ins check what they are asked about and record it.
+mod c06 {
+    use super::*;
+    use crate::acl::{AccessorSubjects, AuthMode};
+    use crate::dm::devices::test::{TEST_DEV_ATT, TEST_DEV_COMM, TEST_DEV_DET};
+    use crate::dm::{Access, Attribute, AttrId, Cluster, CmdId, Command, DeviceType, Endpoint, Event};
+    use crate::error::ErrorCode;
+    use crate::Matter;
+
+    const MATTER: Matter<'static> = Matter::new(&TEST_DEV_DET, TEST_DEV_COMM, &TEST_DEV_ATT, 0);
+
+    const E: usize = 2;
+    const C: usize = 2;
+    const L: usize = 2;
+
+    // ---- the node of the model and the verdict tables (ghost state read by the stand-ins)
+    static mut NEP: usize = 0;
+    static mut EP_IDS: [u16; E] = [0; E];
+    static mut CL_IDS: [[u32; C]; E] = [[0; C]; E];
+    static mut LEAF_IDS: [[[u32; L]; C]; E] = [[[0; L]; C]; E];
+    static mut DTS_PTR: [*const DeviceType; E] = [core::ptr::null(); E];
+    /// is the endpoint reachable for the accessor (group membership)
+    static mut EP_OK: [bool; E] = [false; E];
+    /// does the caller's filter keep the leaf
+    static mut KEEP: [[[bool; L]; C]; E] = [[[false; L]; C]; E];
+    /// verdict of the access gate: 0 = Ok, 1.. = a status
+    static mut GATE: [[[u8; L]; C]; E] = [[[0; L]; C]; E];
+    /// which leaves the gate was asked about in this step
+    static mut ASKED: [[[bool; L]; C]; E] = [[[false; L]; C]; E];
+    static mut ACCESSOR: *const u8 = core::ptr::null();
+    static mut TIMED: bool = false;
+    static mut OP: u8 = 0;
+
+    unsafe fn locate(e: u16, c: u32, l: u32) -> Option<(usize, usize, usize)> {
+        let mut i = 0;
+        while i < E {
+            if i < NEP && EP_IDS[i] == e {
+                let mut j = 0;
+                while j < C {
+                    if CL_IDS[i][j] == c {
+                        let mut k = 0;
+                        while k < L {
+                            if LEAF_IDS[i][j][k] == l {
+                                return Some((i, j, k));
+                            }
+                            k += 1;
+                        }
+                    }
+                    j += 1;
+                }
+            }
+            i += 1;
+        }
+        None
+    }
+
+    fn status_of(v: u8) -> Result<(), IMStatusCode> {
+        match v {
+            0 => Ok(()),
+            1 => Err(IMStatusCode::UnsupportedAccess),
+            2 => Err(IMStatusCode::NeedsTimedInteraction),
+            3 => Err(IMStatusCode::UnsupportedWrite),
+            _ => Err(IMStatusCode::UnsupportedRead),
+        }
+    }
+
+    unsafe fn gate(cl: &Cluster, accessor: &Accessor, timed: bool, path: GenericPath, dts: &[DeviceType], leaf: u32) -> Result<(), IMStatusCode> {
+        kani::assert(accessor as *const Accessor as *const u8 == ACCESSOR && timed == TIMED, "C06.expand.gate_gets_this_accessor_and_timed_flag");
+        kani::assert(!path.is_wildcard(), "C06.expand.gate_asked_about_concrete_path");
+        let (e, c, l) = match (path.endpoint, path.cluster, path.leaf) {
+            (Some(e), Some(c), Some(l)) => (e, c, l),
+            _ => return Err(IMStatusCode::Failure),
+        };
+        kani::assert(c == cl.id && l == leaf, "C06.expand.gate_path_names_the_checked_leaf");
+        let at = locate(e, c, l);
+        kani::assert(at.is_some(), "C06.expand.gate_asked_about_existing_leaf");
+        match at {
+            Some((i, j, k)) => {
+                kani::assert(dts.as_ptr() == DTS_PTR[i], "C06.expand.gate_gets_the_endpoint_device_types");
+                ASKED[i][j][k] = true;
+                status_of(GATE[i][j][k])
+            }
+            None => Err(IMStatusCode::Failure),
+        }
+    }
+
+    fn check_attr_access_by_contract<'a>(
+        cl: &Cluster<'a>,
+        accessor: &Accessor,
+        timed: bool,
+        path: GenericPath,
+        dts: &[DeviceType],
+        write: bool,
+        attr_id: AttrId,
+    ) -> Result<(), IMStatusCode>
+    where
+        'a: 'a, // early-bound, to mirror `impl<'a> Cluster<'a>`
+    {
+        unsafe {
+            kani::assert(OP != 2 && write == (OP == 1), "C06.expand.attr_gate_for_read_or_write_as_requested");
+            gate(cl, accessor, timed, path, dts, attr_id)
+        }
+    }
+
+    fn check_cmd_access_by_contract<'a>(
+        cl: &Cluster<'a>,
+        accessor: &Accessor,
+        timed: bool,
+        path: GenericPath,
+        dts: &[DeviceType],
+        cmd_id: CmdId,
+    ) -> Result<(), IMStatusCode>
+    where
+        'a: 'a,
+    {
+        unsafe {
+            kani::assert(OP == 2, "C06.expand.cmd_gate_for_invoke_only");
+            gate(cl, accessor, timed, path, dts, cmd_id)
+        }
+    }
+
+    fn endpoint_accessible_by_contract<'a>(a: &Accessor<'a>, ep: EndptId) -> bool
+    where
+        'a: 'a,
+    {
+        unsafe {
+            kani::assert(a as *const Accessor as *const u8 == ACCESSOR, "C06.expand.reachability_of_this_accessor");
+            kani::assert(
+                (NEP > 0 && ep == EP_IDS[0]) || (NEP > 1 && ep == EP_IDS[1]),
+                "C06.expand.reachability_asked_about_node_endpoints"
+            );
+            if NEP > 0 && ep == EP_IDS[0] {
+                EP_OK[0]
+            } else if NEP > 1 && ep == EP_IDS[1] {
+                EP_OK[1]
+            } else {
+                false
+            }
+        }
+    }
+
+    fn keep(e: EndptId, c: ClusterId, l: u32) -> bool {
+        unsafe {
+            let at = locate(e, c, l);
+            kani::assert(at.is_some(), "C06.expand.filter_asked_about_existing_leaf");
+            match at {
+                Some((i, j, k)) => KEEP[i][j][k],
+                None => false,
+            }
+        }
+    }
+
+    /// Path item of the model. `O`: 0 = read, 1 = write, 2 = invoke.
+    struct KItem<const O: u8>(GenericPath);
+
+    impl<'a, const O: u8> PathExpansionItem<'a> for KItem<O> {
+        const OPERATION: Operation = match O {
+            0 => Operation::Read,
+            1 => Operation::Write,
+            _ => Operation::Invoke,
+        };
+        type Expanded<'n> = (EndptId, ClusterId, u32, bool);
+        type Status = IMStatusCode;
+
+        fn path(&self) -> GenericPath {
+            self.0.clone()
+        }
+
+        fn expand(&self, _accessor: &Accessor<'_>, e: EndptId, c: ClusterId, l: u32, array: bool) -> Result<Self::Expanded<'a>, Error> {
+            Ok((e, c, l, array))
+        }
+
+        fn into_status(self, status: IMStatusCode) -> Self::Status {
+            status
+        }
+    }
+
+    fn yes_attr(_: &Attribute, _: u16, _: u32) -> bool {
+        true
+    }
+    fn yes_cmd(_: &Command, _: u16, _: u32) -> bool {
+        true
+    }
+    fn yes_event(_: &Event, _: u16, _: u32) -> bool {
+        true
+    }
+
+    fn path_matches(p: &GenericPath, e: u16, c: u32, l: u32) -> bool {
+        (p.endpoint.is_none() || p.endpoint == Some(e)) && (p.cluster.is_none() || p.cluster == Some(c)) && (p.leaf.is_none() || p.leaf == Some(l))
+    }
+
+    /// One call of `next_for_path` from an arbitrary cursor.
+    fn step<const O: u8>() {
+        let matter = MATTER;
+        let accessor = Accessor::new(kani::any(), kani::any(), AccessorSubjects::new(kani::any()), Some(AuthMode::Case), &matter);
+        let timed: bool = kani::any();
+
+        // ---- node: ids symbolic; endpoints ascending (Node invariant), cluster ids distinct per
+        // endpoint, leaf ids distinct per cluster
+        let nep: usize = kani::any();
+        kani::assume(nep <= E);
+        // two endpoints of the same shape (the usual case for endpoints of one device type)
+        let ep_ids: [u16; E] = [3, 5];
+        let cl_ids: [[u32; C]; E] = [[10, 11], [10, 11]];
+        let leaf_ids: [[[u32; L]; C]; E] = [[[20, 21], [20, 21]], [[20, 21], [20, 21]]];
+        let quality: [[[u8; L]; C]; E] = [[[Quality::ARRAY.bits(), 0], [0, 0]], [[Quality::ARRAY.bits(), 0], [0, 0]]];
+        macro_rules! attrs {
+            ($i:expr, $j:expr) => {
+                [
+                    Attribute::new(leaf_ids[$i][$j][0], Access::all(), Quality::from_bits_retain(quality[$i][$j][0])),
+                    Attribute::new(leaf_ids[$i][$j][1], Access::all(), Quality::from_bits_retain(quality[$i][$j][1])),
+                ]
+            };
+        }
+        macro_rules! cmds {
+            ($i:expr, $j:expr) => {
+                [
+                    Command::new(leaf_ids[$i][$j][0], None, Access::all()),
+                    Command::new(leaf_ids[$i][$j][1], None, Access::all()),
+                ]
+            };
+        }
+        let (a00, a01, a10, a11) = (attrs!(0, 0), attrs!(0, 1), attrs!(1, 0), attrs!(1, 1));
+        let (c00, c01, c10, c11) = (cmds!(0, 0), cmds!(0, 1), cmds!(1, 0), cmds!(1, 1));
+        let cl0 = [
+            Cluster::new(cl_ids[0][0], 1, 0, &a00, &c00, &[], yes_attr, yes_cmd, yes_event),
+            Cluster::new(cl_ids[0][1], 1, 0, &a01, &c01, &[], yes_attr, yes_cmd, yes_event),
+        ];
+        let cl1 = [
+            Cluster::new(cl_ids[1][0], 1, 0, &a10, &c10, &[], yes_attr, yes_cmd, yes_event),
+            Cluster::new(cl_ids[1][1], 1, 0, &a11, &c11, &[], yes_attr, yes_cmd, yes_event),
+        ];
+        let dt0 = [DeviceType { dtype: 0x100, drev: 1 }];
+        let dt1 = [DeviceType { dtype: 0x100, drev: 1 }];
+        let endpoints = [Endpoint::new(ep_ids[0], &dt0, &cl0), Endpoint::new(ep_ids[1], &dt1, &cl1)];
+        let node = Node::new(&endpoints[..nep]);
+
+        let ep_ok: [bool; E] = kani::any();
+        let keep_t: [[[bool; L]; C]; E] = kani::any();
+        let gate_t: [[[u8; L]; C]; E] = kani::any();
+        unsafe {
+            NEP = nep;
+            EP_IDS = ep_ids;
+            CL_IDS = cl_ids;
+            LEAF_IDS = leaf_ids;
+            DTS_PTR = [dt0.as_ptr(), dt1.as_ptr()];
+            EP_OK = ep_ok;
+            KEEP = keep_t;
+            GATE = gate_t;
+            ASKED = [[[false; L]; C]; E];
+            ACCESSOR = &accessor as *const Accessor as *const u8;
+            TIMED = timed;
+            OP = O;
+        }
+
+        // ---- path and cursor
+        let path = GenericPath::new(
+            if kani::any() { Some(kani::any()) } else { None },
+            if kani::any() { Some(kani::any()) } else { None },
+            if kani::any() { Some(kani::any()) } else { None },
+        );
+        let wildcard = path.endpoint.is_none() || path.cluster.is_none() || path.leaf.is_none();
+        let cur_ep: Option<u16> = if kani::any() { Some(kani::any()) } else { None };
+        let cur_cl: u16 = kani::any();
+        let cur_leaf: u16 = kani::any();
+        kani::assume(cur_cl as usize <= C && cur_leaf as usize <= L);
+        let last: Option<(u16, u32, u32)> = if kani::any() { Some((kani::any(), kani::any(), kani::any())) } else { None };
+
+        // position of the cursor in the current node: the endpoint it is anchored at if that still
+        // exists (then cluster / leaf index are kept), else the first endpoint with a higher id
+        let (i0, j0, k0) = match cur_ep {
+            None => (0, cur_cl as usize, cur_leaf as usize),
+            Some(id) => {
+                if nep > 0 && ep_ids[0] == id {
+                    (0, cur_cl as usize, cur_leaf as usize)
+                } else if nep > 1 && ep_ids[1] == id {
+                    (1, cur_cl as usize, cur_leaf as usize)
+                } else if nep > 0 && id < ep_ids[0] {
+                    (0, 0, 0)
+                } else if nep > 1 && id < ep_ids[1] {
+                    (1, 0, 0)
+                } else {
+                    (nep, 0, 0)
+                }
+            }
+        };
+        // cursor invariant (`next` and `next_for_path` itself establish it): no anchor => indices 0;
+        // a non-zero cluster/leaf index was reached by yielding from that endpoint / cluster, so they
+        // match the (unchanged) path; a concrete path is expanded from a fresh cursor only
+        kani::assume(cur_ep.is_some() || (cur_cl == 0 && cur_leaf == 0));
+        if i0 < nep && (j0, k0) != (0, 0) {
+            kani::assume(path.endpoint.is_none() || path.endpoint == Some(ep_ids[i0]));
+            if k0 != 0 {
+                kani::assume(j0 < C && (path.cluster.is_none() || path.cluster == Some(cl_ids[i0][j0])));
+            }
+        }
+        kani::assume(wildcard || (cur_ep.is_none() && cur_cl == 0 && cur_leaf == 0));
+
+        let mut px: PathExpander<'_, KItem<O>, core::iter::Empty<Result<KItem<O>, Error>>, fn(EndptId, ClusterId, u32) -> bool> = PathExpander {
+            accessor: &accessor,
+            timed,
+            items: None,
+            item: Some(KItem(path.clone())),
+            endpoint_id: cur_ep,
+            cluster_index: cur_cl,
+            leaf_index: cur_leaf,
+            filter: keep,
+            last_authorized: last,
+        };
+
+        let r = px.next_for_path(&node);
+
+        // ---- reference: the first leaf at or after the cursor that exists, matches the path, sits on
+        // a reachable endpoint, is kept by the filter and is authorised (gate Ok, or it is the triple
+        // authorised last)
+        let mut expect: Option<(usize, usize, usize)> = None;
+        let mut exists_match: Option<(usize, usize, usize)> = None;
+        let mut i = E;
+        while i > 0 {
+            i -= 1;
+            let mut j = C;
+            while j > 0 {
+                j -= 1;
+                let mut k = L;
+                while k > 0 {
+                    k -= 1;
+                    let t = (ep_ids[i], cl_ids[i][j], leaf_ids[i][j][k]);
+                    let at_or_after = i > i0 || (i == i0 && (j > j0 || (j == j0 && k >= k0)));
+                    if i < nep && path_matches(&path, t.0, t.1, t.2) {
+                        exists_match = Some((i, j, k));
+                        if at_or_after && ep_ok[i] && keep_t[i][j][k] && (gate_t[i][j][k] == 0 || last == Some(t)) {
+                            expect = Some((i, j, k));
+                        }
+                    }
+                }
+            }
+        }
+
+        let asked = unsafe { ASKED };
+        let invalid_wildcard = O != 0 && (path.cluster.is_none() || path.leaf.is_none());
+
+        match r {
+            Ok(Some((e, c, l, array))) => {
+                let at = unsafe { locate(e, c, l) };
+                kani::assert(at.is_some(), "C06.expand.yielded_leaf_exists_in_node");
+                kani::assert(path_matches(&path, e, c, l), "C06.expand.yielded_leaf_matches_path");
+                if let Some((i, j, k)) = at {
+                    kani::assert(ep_ok[i], "C06.expand.yielded_leaf_on_reachable_endpoint");
+                    kani::assert(keep_t[i][j][k], "C06.expand.yielded_leaf_passed_filter");
+                    kani::assert(
+                        (asked[i][j][k] && gate_t[i][j][k] == 0) || last == Some((e, c, l)),
+                        "C06.expand.yielded_leaf_authorised_in_this_step_or_last_authorised"
+                    );
+                    kani::assert(!invalid_wildcard, "C06.expand.unsupported_wildcard_yields_nothing");
+                    kani::assert(expect == Some((i, j, k)), "C06.expand.yields_first_authorised_match_after_cursor");
+                    // new cursor: anchored at that endpoint, just past the leaf; strictly after the old one
+                    kani::assert(
+                        px.endpoint_id == Some(e) && px.cluster_index as usize == j && px.leaf_index as usize == k + 1,
+                        "C06.expand.cursor_just_past_yielded_leaf"
+                    );
+                    kani::assert(
+                        i > i0 || (i == i0 && (j > j0 || (j == j0 && k + 1 > k0))),
+                        "C06.expand.cursor_strictly_advances"
+                    );
+                    kani::assert(px.last_authorized == Some((e, c, l)), "C06.expand.last_authorised_is_yielded_leaf");
+                    kani::assert(
+                        O == 2 || array == Quality::from_bits_retain(quality[i][j][k]).contains(Quality::ARRAY),
+                        "C06.expand.array_flag_from_attribute_quality"
+                    );
+                }
+            }
+            Ok(None) => {
+                if wildcard {
+                    kani::assert(!invalid_wildcard, "C06.expand.unsupported_wildcard_reported");
+                    kani::assert(expect.is_none(), "C06.expand.wildcard_exhausted_only_when_nothing_authorised_is_left");
+                } else {
+                    // concrete path: the leaf exists on a reachable endpoint and the filter dropped it
+                    kani::assert(
+                        exists_match.is_some_and(|(i, j, k)| ep_ok[i] && !keep_t[i][j][k]),
+                        "C06.expand.concrete_silent_only_when_filtered_out"
+                    );
+                }
+                kani::assert(px.last_authorized == last, "C06.expand.no_yield_keeps_last_authorised");
+            }
+            Err(status) => {
+                if wildcard {
+                    // a wildcard never yields an access status; only the two unsupported-wildcard cases
+                    kani::assert(invalid_wildcard, "C06.expand.wildcard_never_yields_error_status");
+                    kani::assert(
+                        if path.cluster.is_none() { matches!(status, IMStatusCode::UnsupportedCluster) } else { matches!(status, IMStatusCode::UnsupportedAttribute) },
+                        "C06.expand.unsupported_wildcard_status"
+                    );
+                } else {
+                    let (pe, pc, pl) = (path.endpoint.unwrap(), path.cluster.unwrap(), path.leaf.unwrap());
+                    let ei = if nep > 0 && ep_ids[0] == pe { Some(0) } else if nep > 1 && ep_ids[1] == pe { Some(1) } else { None };
+                    let prescribed = match ei {
+                        Some(i) if ep_ok[i] => {
+                            let cj = if cl_ids[i][0] == pc { Some(0) } else if cl_ids[i][1] == pc { Some(1) } else { None };
+                            match cj {
+                                None => IMStatusCode::UnsupportedCluster,
+                                Some(j) => match exists_match {
+                                    None => if O == 2 { IMStatusCode::UnsupportedCommand } else { IMStatusCode::UnsupportedAttribute },
+                                    Some((_, _, k)) => match status_of(gate_t[i][j][k]) {
+                                        Err(s) => s,
+                                        Ok(()) => IMStatusCode::Success,
+                                    },
+                                },
+                            }
+                        }
+                        _ => IMStatusCode::UnsupportedEndpoint,
+                    };
+                    kani::assert(status as u16 == prescribed as u16, "C06.expand.concrete_path_status_is_the_prescribed_one");
+                    kani::assert(
+                        !exists_match.is_some_and(|(i, j, k)| ep_ok[i] && keep_t[i][j][k] && (gate_t[i][j][k] == 0 || last == Some((pe, pc, pl)))),
+                        "C06.expand.concrete_authorised_leaf_is_not_refused"
+                    );
+                }
+                kani::assert(px.last_authorized == last, "C06.expand.error_keeps_last_authorised");
+            }
+        }
+
+        // the gate is only ever asked about leaves that match the path, sit on a reachable endpoint
+        // and passed the filter
+        let (qi, qj, qk): (usize, usize, usize) = (kani::any(), kani::any(), kani::any());
+        kani::assume(qi < E && qj < C && qk < L);
+        kani::assert(
+            !asked[qi][qj][qk] || (qi < nep && ep_ok[qi] && keep_t[qi][qj][qk] && path_matches(&path, ep_ids[qi], cl_ids[qi][qj], leaf_ids[qi][qj][qk])),
+            "C06.expand.gate_asked_only_about_eligible_leaves"
+        );
+
+        kani::cover!(matches!(r, Ok(Some(_))) && wildcard && i0 == 0 && expect.is_some_and(|(i, _, _)| i == 1), "wildcard: moves on to the second endpoint");
+        kani::cover!(matches!(r, Ok(Some(_))) && wildcard && cur_ep.is_some() && i0 < nep && cur_ep != Some(ep_ids[i0]), "wildcard: anchor endpoint gone, resumes at the next one");
+        kani::cover!(matches!(r, Ok(Some((e, c, l, _))) if last == Some((e, c, l))) && expect.is_some_and(|(i, j, k)| gate_t[i][j][k] != 0), "yield on the strength of the last authorisation");
+        kani::cover!(matches!(r, Ok(None)) && wildcard && exists_match.is_some(), "wildcard: everything left is refused, silently");
+        kani::cover!(matches!(r, Ok(Some(_))) && !wildcard, "concrete: yielded");
+        kani::cover!(matches!(r, Err(IMStatusCode::UnsupportedAccess)) && !wildcard, "concrete: refused by the gate");
+        kani::cover!(matches!(r, Err(IMStatusCode::UnsupportedEndpoint)) && !wildcard && nep == E, "concrete: no such endpoint");
+        kani::cover!(matches!(r, Err(IMStatusCode::UnsupportedCluster)) && !wildcard, "concrete: no such cluster");
+        kani::cover!(matches!(r, Ok(None)) && !wildcard, "concrete: filtered out");
+    }
+
+    // TIER: thorough
+    // KIND: bounded (node of <= 2 endpoints x 2 clusters x 2 attributes, fixed ids; every path; one step from any cursor)
+    #[kani::proof]
+    #[kani::unwind(5)]
+    #[kani::stub(crate::dm::types::cluster::Cluster::check_attr_access, check_attr_access_by_contract)]
+    #[kani::stub(crate::dm::types::cluster::Cluster::check_cmd_access, check_cmd_access_by_contract)]
+    #[kani::stub(crate::acl::Accessor::is_endpoint_accessible, endpoint_accessible_by_contract)]
+    fn c06_expand_step_read() {
+        step::<0>();
+    }
+
+    // TIER: thorough
+    // KIND: bounded (node of <= 2 endpoints x 2 clusters x 2 attributes, fixed ids; every path; one step from any cursor)
+    #[kani::proof]
+    #[kani::unwind(5)]
+    #[kani::stub(crate::dm::types::cluster::Cluster::check_attr_access, check_attr_access_by_contract)]
+    #[kani::stub(crate::dm::types::cluster::Cluster::check_cmd_access, check_cmd_access_by_contract)]
+    #[kani::stub(crate::acl::Accessor::is_endpoint_accessible, endpoint_accessible_by_contract)]
+    fn c06_expand_step_write() {
+        step::<1>();
+    }
+
+    // TIER: thorough
+    // KIND: bounded (node of <= 2 endpoints x 2 clusters x 2 commands, fixed ids; every path; one step from any cursor)
+    #[kani::proof]
+    #[kani::unwind(5)]
+    #[kani::stub(crate::dm::types::cluster::Cluster::check_attr_access, check_attr_access_by_contract)]
+    #[kani::stub(crate::dm::types::cluster::Cluster::check_cmd_access, check_cmd_access_by_contract)]
+    #[kani::stub(crate::acl::Accessor::is_endpoint_accessible, endpoint_accessible_by_contract)]
+    fn c06_expand_step_invoke() {
+        step::<2>();
+    }
+
+    // ------------------------------------------------------------------------------------------
+    // `PathExpander::next` against the contract of `next_for_path` (an arbitrary sequence of step
+    // results chosen by the harness): the items are taken in order, each new item starts from a fresh
+    // cursor, a concrete path is answered exactly once (one leaf, one status, or silently when the
+    // filter dropped it), a wildcard item is kept until its expansion is exhausted, an exhausted
+    // item is never answered with a status.
+
+    const MAXCALLS: usize = 4;
+    static mut NFP_CALLS: usize = 0;
+    /// result of the k-th step: 0 = exhausted / nothing, 1 = a leaf, 2.. = a status
+    static mut NFP_RES: [u8; MAXCALLS] = [0; MAXCALLS];
+    static mut NFP_SEEN_TAG: [Option<u32>; MAXCALLS] = [None; MAXCALLS];
+    static mut NFP_SEEN_FRESH: [bool; MAXCALLS] = [false; MAXCALLS];
+    const LEAF: (EndptId, ClusterId, u32, bool) = (7, 8, 9, false);
+
+    fn next_for_path_by_contract<'a, T, I, F>(
+        px: &mut PathExpander<'a, T, I, F>,
+        _node: &Node<'_>,
+    ) -> Result<Option<(EndptId, ClusterId, u32, bool)>, IMStatusCode>
+    where
+        I: Iterator<Item = Result<T, Error>>,
+        T: PathExpansionItem<'a>,
+        F: FnMut(EndptId, ClusterId, u32) -> bool,
+    {
+        unsafe {
+            // pre-condition of `next_for_path`
+            kani::assert(px.item.is_some(), "C06.next.step_called_with_a_current_item");
+            let k = NFP_CALLS;
+            kani::assert(k < MAXCALLS, "C06.next.bounded_number_of_steps");
+            if k >= MAXCALLS {
+                return Ok(None);
+            }
+            NFP_SEEN_TAG[k] = px.item.as_ref().map(|i| i.path().cluster).unwrap_or(None);
+            NFP_SEEN_FRESH[k] = px.endpoint_id.is_none() && px.cluster_index == 0 && px.leaf_index == 0;
+            NFP_CALLS = k + 1;
+            // the step moves the cursor somewhere (what it does is the subject of c06_expand_step_*)
+            px.endpoint_id = if kani::any() { Some(kani::any()) } else { None };
+            px.cluster_index = kani::any();
+            px.leaf_index = kani::any();
+            match NFP_RES[k] {
+                0 => Ok(None),
+                1 => Ok(Some(LEAF)),
+                s => status_of(s - 1).map(|_| None), // s - 1 in 1..=4: always a status
+            }
+        }
+    }
+
+    /// The request's path list: `left` of the two paths are still to come; `bad[i]` = the i-th one
+    /// does not parse.
+    struct Feed<const O: u8> {
+        left: usize,
+        paths: [GenericPath; 2],
+        bad: [bool; 2],
+    }
+
+    impl<const O: u8> Iterator for Feed<O> {
+        type Item = Result<KItem<O>, Error>;
+
+        fn next(&mut self) -> Option<Self::Item> {
+            if self.left == 0 {
+                return None;
+            }
+            let i = 2 - self.left;
+            self.left -= 1;
+            if self.bad[i] {
+                Some(Err(ErrorCode::Invalid.into()))
+            } else {
+                Some(Ok(KItem(self.paths[i].clone())))
+            }
+        }
+    }
+
+    fn tagged_path(tag: u32) -> GenericPath {
+        GenericPath::new(
+            if kani::any() { Some(kani::any()) } else { None },
+            Some(tag),
+            if kani::any() { Some(kani::any()) } else { None },
+        )
+    }
+
+    // TIER: quick
+    // KIND: bounded (a current item plus <= 2 further paths in the request; `next_for_path` by contract)
+    #[kani::proof]
+    #[kani::unwind(6)]
+    #[kani::stub(crate::im::expand::PathExpander::next_for_path, next_for_path_by_contract)]
+    fn c06_expand_next() {
+        let matter = MATTER;
+        let accessor = Accessor::new(kani::any(), kani::any(), AccessorSubjects::new(kani::any()), Some(AuthMode::Case), &matter);
+        let node = Node::new(&[]);
+
+        // the current item (tag 100) and the rest of the list (tags 101, 102)
+        let cur_path = tagged_path(100);
+        let has_cur: bool = kani::any();
+        let paths = [tagged_path(101), tagged_path(102)];
+        let wild = [cur_path.is_wildcard(), paths[0].is_wildcard(), paths[1].is_wildcard()];
+        let bad: [bool; 2] = kani::any();
+        let left0: usize = kani::any();
+        kani::assume(left0 <= 2);
+        let has_list: bool = kani::any();
+        let res: [u8; MAXCALLS] = kani::any();
+        kani::assume(res[0] <= 5 && res[1] <= 5 && res[2] <= 5 && res[3] <= 5);
+        unsafe {
+            NFP_CALLS = 0;
+            NFP_RES = res;
+        }
+
+        let mut px: PathExpander<'_, KItem<0>, Feed<0>, fn(EndptId, ClusterId, u32) -> bool> = PathExpander {
+            accessor: &accessor,
+            timed: kani::any(),
+            items: if has_list { Some(Feed { left: left0, paths: paths.clone(), bad }) } else { None },
+            item: if has_cur { Some(KItem(cur_path.clone())) } else { None },
+            endpoint_id: if kani::any() { Some(kani::any()) } else { None },
+            cluster_index: kani::any(),
+            leaf_index: kani::any(),
+            filter: keep,
+            last_authorized: None,
+        };
+
+        let r = px.next(&node);
+
+        // ---- reference run, from the statement. `cur`: 0 = the initial item, 1/2 = list items
+        let avail = if has_list { left0 } else { 0 };
+        let mut cur: Option<usize> = if has_cur { Some(0) } else { None };
+        let mut fed = 0usize;
+        let mut calls = 0usize;
+        // 0 = end of list, 1 = parse error, 2 = a leaf, 3 = a status
+        let mut outcome = 0u8;
+        let mut status = 0u8;
+        let mut fresh_ok = true;
+        let mut order_ok = true;
+        let seen_tag = unsafe { NFP_SEEN_TAG };
+        let seen_fresh = unsafe { NFP_SEEN_FRESH };
+        let mut round = 0;
+        let mut done = false;
+        while round < MAXCALLS {
+            if !done {
+                let mut fetched = false;
+                if cur.is_none() {
+                    if fed == avail {
+                        outcome = 0;
+                        done = true;
+                    } else {
+                        let idx = (2 - avail) + fed;
+                        fed += 1;
+                        if bad[idx] {
+                            outcome = 1;
+                            done = true;
+                        } else {
+                            cur = Some(idx + 1);
+                            fetched = true;
+                        }
+                    }
+                }
+                if !done {
+                    let c = cur.unwrap();
+                    let k = calls;
+                    calls += 1;
+                    if seen_tag[k] != Some(100 + c as u32) {
+                        order_ok = false;
+                    }
+                    if fetched && !seen_fresh[k] {
+                        fresh_ok = false;
+                    }
+                    match res[k] {
+                        0 => cur = None,
+                        1 => {
+                            outcome = 2;
+                            if !wild[c] {
+                                cur = None;
+                            }
+                            done = true;
+                        }
+                        s => {
+                            outcome = 3;
+                            status = s;
+                            cur = None;
+                            done = true;
+                        }
+                    }
+                }
+            }
+            round += 1;
+        }
+        kani::assert(done, "C06.next.reference_run_terminates_within_bound");
+
+        kani::assert(unsafe { NFP_CALLS } == calls, "C06.next.one_step_per_visited_item");
+        kani::assert(order_ok, "C06.next.items_taken_in_request_order");
+        kani::assert(fresh_ok, "C06.next.new_item_starts_from_fresh_cursor");
+        match r {
+            None => kani::assert(outcome == 0, "C06.next.ends_only_when_list_and_item_exhausted"),
+            Some(Err(_)) => kani::assert(outcome == 1, "C06.next.parse_error_passed_on"),
+            Some(Ok(Ok(t))) => {
+                kani::assert(outcome == 2, "C06.next.leaf_only_when_step_yields_one");
+                kani::assert(t == LEAF, "C06.next.leaf_is_the_one_from_the_step");
+            }
+            Some(Ok(Err(s))) => {
+                kani::assert(outcome == 3, "C06.next.status_only_when_step_reports_one");
+                if outcome == 3 {
+                    kani::assert(Err(s) == status_of(status - 1), "C06.next.status_is_the_one_from_the_step");
+                }
+            }
+        }
+        kani::assert(px.item.is_some() == cur.is_some(), "C06.next.concrete_item_dropped_after_its_single_answer_wildcard_kept");
+        kani::assert(
+            px.item.as_ref().map(|i| i.path().cluster) == cur.map(|c| Some(100 + c as u32)),
+            "C06.next.current_item_is_the_expected_one"
+        );
+        kani::assert(px.items.as_ref().map(|f| f.left) == if has_list { Some(avail - fed) } else { None }, "C06.next.list_consumed_exactly_as_far_as_visited");
+
+        kani::cover!(matches!(r, Some(Ok(Ok(_)))) && calls == 3, "two exhausted items, then a leaf from the third");
+        kani::cover!(matches!(r, Some(Ok(Ok(_)))) && px.item.is_none(), "concrete path answered, dropped");
+        kani::cover!(matches!(r, Some(Ok(Ok(_)))) && px.item.is_some(), "wildcard path yields, kept");
+        kani::cover!(matches!(r, Some(Ok(Err(_)))), "status");
+        kani::cover!(matches!(r, Some(Err(_))), "parse error");
+        kani::cover!(r.is_none() && calls == 3, "everything exhausted silently");
+    }
+}
